@@ -269,3 +269,95 @@ func VerifC04CrossTable() {
 	rt.Assert(xIntegrity(db), "C04: after the commit every strong reference resolves in its table, every non-root row is referenced, no weak reference dangles")
 	rt.Assert(s.matches(db), "C04: unreferenced non-root rows are deleted transitively and dangling weak references removed, nothing else")
 }
+
+// ---- a root table referenced only from the value position of maps ----
+
+const schemaMV = `{"name":"V","version":"1.0.0","tables":{
+ "Holder":{"isRoot":true,"columns":{
+   "name":{"type":"string"},
+   "strong":{"type":{"key":"string","value":{"type":"uuid","refTable":"Target","refType":"strong"},"min":0,"max":"unlimited"}},
+   "weak":{"type":{"key":"string","value":{"type":"uuid","refTable":"Target","refType":"weak"},"min":0,"max":"unlimited"}}
+ }},
+ "Target":{"isRoot":true,"columns":{"name":{"type":"string"}}}}}`
+
+type holderMV struct {
+	UUID   string            `ovsdb:"_uuid"`
+	Name   string            `ovsdb:"name"`
+	Strong map[string]string `ovsdb:"strong"`
+	Weak   map[string]string `ovsdb:"weak"`
+}
+
+type targetMV struct {
+	UUID string `ovsdb:"_uuid"`
+	Name string `ovsdb:"name"`
+}
+
+func refMap(u string) ovsdb.OvsMap {
+	m := map[interface{}]interface{}{}
+	if u != "" {
+		m["k"] = ovsdb.UUID{GoUUID: u}
+	}
+	return ovsdb.OvsMap{GoMap: m}
+}
+
+// VerifC04MapValueRoot: Target rows (root table) are referenced only through map values of Holder; a transaction
+// that touches only Target (delete of a referenced row) or only Holder (a reference to a row that does not exist).
+func VerifC04MapValueRoot() {
+	cm, err := model.NewClientDBModel("V", map[string]model.Model{"Holder": &holderMV{}, "Target": &targetMV{}})
+	if err != nil {
+		panic(err)
+	}
+	db := inmemory.NewDatabase(map[string]model.ClientDBModel{"V": cm})
+	if err := db.CreateDatabase("V", fix.MustSchema(schemaMV)); err != nil {
+		panic(err)
+	}
+	strongRef := rt.Choose(2) == 1 // which of the two columns holds the reference to M1
+	row := ovsdb.Row{"name": "h"}
+	if strongRef {
+		row["strong"] = refMap(fix.M1)
+	} else {
+		row["weak"] = refMap(fix.M1)
+	}
+	res := Run(db,
+		ovsdb.Operation{Op: ovsdb.OperationInsert, Table: "Target", UUID: fix.M1, Row: ovsdb.Row{"name": "t1"}},
+		ovsdb.Operation{Op: ovsdb.OperationInsert, Table: "Target", UUID: fix.M2, Row: ovsdb.Row{"name": "t2"}},
+		ovsdb.Operation{Op: ovsdb.OperationInsert, Table: "Holder", UUID: fix.U1, Row: row})
+	rt.Assert(!Failed(res), "C04: a consistent set of rows is accepted")
+	holder := func() *holderMV {
+		hs, _ := db.List("V", "Holder")
+		h, _ := hs[fix.U1].(*holderMV)
+		return h
+	}
+	targets := func() int {
+		ts, _ := db.List("V", "Target")
+		return len(ts)
+	}
+	switch rt.Choose(3) {
+	case 0: // delete the referenced row, alone
+		res = Run(db, ovsdb.Operation{Op: ovsdb.OperationDelete, Table: "Target", Where: ByUUID(fix.M1)})
+		rt.Reach("ran")
+		if strongRef {
+			rt.Assert(Failed(res), "C04: deleting a row that a map value strongly references is rejected")
+			rt.Assert(targets() == 2 && holder() != nil && holder().Strong["k"] == fix.M1, "C04: a rejected transaction changes nothing")
+		} else {
+			rt.Assert(!Failed(res), "C04: deleting a weakly referenced row is accepted")
+			rt.Assert(targets() == 1 && holder() != nil && len(holder().Weak) == 0, "C04: a weak reference held by a map value is removed with the row it pointed to")
+		}
+	case 1: // delete the other row: nothing references it
+		res = Run(db, ovsdb.Operation{Op: ovsdb.OperationDelete, Table: "Target", Where: ByUUID(fix.M2)})
+		rt.Reach("ran")
+		rt.Assert(!Failed(res) && targets() == 1, "C04: deleting an unreferenced root row is accepted")
+	case 2: // point the map value at a row that does not exist
+		col := "weak"
+		if strongRef {
+			col = "strong"
+		}
+		res = Run(db, ovsdb.Operation{Op: ovsdb.OperationUpdate, Table: "Holder", Where: ByUUID(fix.U1), Row: ovsdb.Row{col: refMap(fix.Dangling)}})
+		rt.Reach("ran")
+		if strongRef {
+			rt.Assert(Failed(res), "C04: a strong reference (map value) to a row that does not exist is rejected")
+		} else {
+			rt.Assert(!Failed(res) && holder() != nil && len(holder().Weak) == 0, "C04: a weak reference (map value) to a row that does not exist is dropped")
+		}
+	}
+}
